@@ -141,8 +141,14 @@ def find_slice(qualname):
             x = x.orelse[0]
         body = x.orelse
     srcs = [ast.unparse(b) for b in body]
-    i0 = [i for i, t in enumerate(srcs) if t.startswith(spec["first"])]
-    i1 = [i for i, t in enumerate(srcs) if t.startswith(spec["last"])]
+    if spec.get("whole"):
+        # the complete body of the innermost `inside` block (statements added to the block are part of the slice)
+        if not body:
+            return None
+        i0, i1 = [0], [len(body) - 1]
+    else:
+        i0 = [i for i, t in enumerate(srcs) if t.startswith(spec["first"])]
+        i1 = [i for i, t in enumerate(srcs) if t.startswith(spec["last"])]
     if len(i0) != 1 or len(i1) != 1 or i1[0] < i0[0]:
         return None
     stmts = list(body[i0[0]: i1[0] + 1])
